@@ -200,7 +200,13 @@ func TestVerifC32(t *testing.T) {
 					if big && tp.Choose(2) == 0 {
 						c = 2
 					}
+					if tp.Choose(5) == 0 {
+						c = 3
+					}
 					switch c {
+					case 3:
+						// one pack of the source repository cannot be downloaded at all
+						f = fault{Kind: "sticky-src", At: 1 + tp.Choose(4)}
 					case 0:
 						f = fault{Kind: "crash", At: 1 + tp.Choose(25)}
 					case 1:
@@ -217,6 +223,26 @@ func TestVerifC32(t *testing.T) {
 					pr.cl.F = simbe.Faults{ErrBefore: 50, ErrAfter: 50, PartialRead: 30, Budget: f.Budget}
 				case "slow":
 					pr.cl.F = simbe.Faults{Delay: 150, MaxDelay: 90 * time.Second, Budget: 8}
+				case "sticky-src":
+					seen := map[string]int{}
+					at := f.At
+					w.extraClientHook = func(c *simbe.Client) {
+						c.Script = func(op string, h backend.Handle, _ int) *simbe.Forced {
+							if op != "Load" || h.Type != backend.PackFile {
+								return nil
+							}
+							idx, ok := seen[h.Name]
+							if !ok {
+								idx = len(seen) + 1
+								seen[h.Name] = idx
+							}
+							if idx != at {
+								return nil
+							}
+							w.s.Count("fault:sticky-load-source-pack")
+							return &simbe.Forced{Kind: "err-before"}
+						}
+					}
 				}
 				// watch the destination: a snapshot saved before a later pack means the batch was split
 				snapSaved, split := false, false
@@ -232,6 +258,7 @@ func TestVerifC32(t *testing.T) {
 					}
 				})
 				err := w.cmdCopy(pr, nil)
+				w.extraClientHook = nil
 				dst.OnMutation = nil
 				w.postRun()
 				points++
